@@ -293,12 +293,13 @@ class DataConnection(Connection, abc.ABC):
                     "exception while disconnecting : %r", exc, extra=self.__dict__)
 
             finally:
-                await self.set_state(ConnectionState.CLOSED, close_reason=reason)
-                # Because disconnect can be called when read failed setting the
-                # reader task to none should be done last
+                # Release the stream before reporting CLOSED: a listener of that
+                # event can suspend or connect again, the reader and writer of the
+                # new connection should not be dropped when this method resumes
                 self._reader_task = None
                 self._reader = None
                 self._writer = None
+                await self.set_state(ConnectionState.CLOSED, close_reason=reason)
 
     def start_reader_task(self):
         """Starts the message reader task"""
@@ -316,7 +317,12 @@ class DataConnection(Connection, abc.ABC):
         """Message reader loop. This will loop until the connection is closed or
         the network is closed
         """
-        while not self._is_closing:
+        # The loop belongs to the stream it was started for: when the connection
+        # got closed and connected again in the meantime (while a message
+        # callback or a listener of the CLOSED event was suspended) the new
+        # stream has a reader loop of its own
+        reader = self._reader
+        while not self._is_closing and self._reader is reader:
             try:
                 message = await self.receive_message_object()
 
